@@ -75,6 +75,7 @@ func (c *cl) hook(id int) func(g *gate.Store) {
 
 func (c *cl) startNode(id int, bootstrap bool, seeds []string) error {
 	n := c.nodes[id-1]
+	c.emit(trace.Ev{"a": "boot", "n": id})
 	err := n.Start(qcluster.Opts{Bootstrap: bootstrap, Seeds: seeds, Hook: c.hook(id)})
 	ev := trace.Ev{"a": "start", "n": id, "err": err != nil}
 	if err == nil {
